@@ -132,7 +132,7 @@ def gen_params(rng, cls, ndat_min, nch_min):
 
 def gen_world(rng):
     r = rng.random()
-    mode = "poser" if r < 0.22 else "preger" if r < 0.36 else "mixed"
+    mode = "poser" if r < 0.30 else "preger" if r < 0.44 else "mixed"
     fs = rng.choice([20.0, 50.0, 100.0, 128.0])
     w = {"mode": mode, "fs": fs, "seed": rng.getrandbits(40),
          "layout": rng.choices(["C", "F", "view"], weights=[0.75, 0.15, 0.10])[0]}
@@ -155,7 +155,7 @@ def gen_world(rng):
         k = rng.randint(1, 2)
         cl = [rng.choice(["FDD", "EFDD", "SSIcov", "SSIdat", "pLSCF", "FSDD"]) for _ in range(k)]
         # near-miss configurations: everything acceptable except one aspect of one setup
-        variant = rng.choice(["ok", "ok", "related_class", "related_class", "swapped", "missing", "other_class"])
+        variant = rng.choice(["ok", "ok", "ok", "related_class", "related_class", "swapped", "missing", "other_class"])
         victim = rng.randrange(len(w["setups"]))
         w["poser_variant"] = [variant, victim]
         related = {"FDD": ["EFDD", "FSDD"], "EFDD": ["FDD", "FSDD"], "FSDD": ["EFDD", "FDD"],
@@ -576,7 +576,8 @@ def gen_op(rng, wd: World, swarm, step, script):
         if k == "mpe":
             if not mem:
                 continue
-            ai = rng.choice(mem)
+            ran = [i for i in mem if wd.st[i].ran]
+            ai = rng.choice(ran) if ran and rng.random() < 0.85 else rng.choice(mem)
             return _with_fault(rng, wd, swarm, _mpe_op(rng, wd, si, ai))
         if k == "set_params":
             cand = [i for i, a in enumerate(w["algs"]) if a["home"] == si]
@@ -611,6 +612,14 @@ def gen_op(rng, wd: World, swarm, step, script):
                 continue
             return _with_disk_fault(rng, swarm, {"op": "load_check", "path": rng.choice(paths)}, read=True)
         if k == "restart":
+            ran = [i for i in mem if wd.st[i].ran]
+            if ran and rng.random() < 0.6:
+                # "save today, continue tomorrow": extract modes or run again on the loaded objects
+                ai = rng.choice(ran)
+                if rng.random() < 0.6:
+                    script.append(lambda r, wd2, si=si, ai=ai: _mpe_op(r, wd2, si, ai))
+                else:
+                    script.append(lambda r, wd2, si=si, nm=w["algs"][ai]["name"]: {"op": "run", "setup": si, "name": nm})
             return {"op": "restart", "setup": si, "path": f"sim:/s{si}_{rng.choice('ab')}.pkl"}
         if k == "save_crash":
             if not swarm["faulty"]:
@@ -766,7 +775,7 @@ def poser_script(rng, w):
     for si in order:
         for i in [i for i in base if w["algs"][i]["home"] == si]:
             steps.append(lambda r, wd, si=si, i=i: _mpe_op(r, wd, si, i, nmodes=2))
-    if rng.random() < 0.3:
+    if rng.random() < 0.15:
         tail = steps[ns:]
         rng.shuffle(tail)  # interleave runs/mpes of different setups (an mpe before its run becomes a gate probe)
         steps[ns:] = tail
